@@ -91,13 +91,28 @@ impl<T: SharedResource> ReloadFeatureFactory<T> {
             return Err("shared_resource_capacity, shared_resource_demand and partial_solution must be set for shared reload feature".into());
         };
 
-        let shared_resource_threshold_fn: SharedResourceThresholdFn<T> =
-            Box::new(move |route_ctx: &RouteContext, activity_idx, demand| {
+        let shared_resource_threshold_fn: SharedResourceThresholdFn<T> = Box::new({
+            let resource_capacity_fn = resource_capacity_fn.clone();
+            move |route_ctx: &RouteContext, activity_idx, demand| {
+                let has_resource = route_ctx
+                    .route()
+                    .tour
+                    .get(activity_idx)
+                    .is_some_and(|activity| (resource_capacity_fn)(activity).is_some());
+
+                // NOTE the amount of available resource is stored per activity index on solution level, so it tells
+                // nothing once the tour is modified: no extra demand can be moved to a shared resource then
+                if has_resource && route_ctx.is_stale() {
+                    return T::default().can_fit(demand);
+                }
+
                 route_ctx
                     .state()
-                    .get_activity_state::<SharedResourceStateKey, T>(activity_idx)
+                    .get_activity_state::<SharedResourceStateKey, Option<T>>(activity_idx)
+                    .and_then(|resource_available| resource_available.as_ref())
                     .is_none_or(|resource_available| resource_available.can_fit(demand))
-            });
+            }
+        });
 
         let simple_reload = self.build(Some(shared_resource_threshold_fn))?;
 
@@ -240,10 +255,8 @@ impl<T: LoadOps> ReloadFeatureFactory<T> {
 
                 has_enough_vehicle_capacity
                     && shared_resource_threshold_fn.as_ref().is_none_or(|shared_resource_threshold_fn| {
-                        // total static delivery at left
-                        let left_delivery = fold_demand(left.start..right.end, |demand| demand.delivery.0);
-
-                        (shared_resource_threshold_fn)(route_ctx, left.start, &left_delivery)
+                        // static delivery which is moved from right to the resource of left
+                        (shared_resource_threshold_fn)(route_ctx, left.start, &right_delivery)
                     })
             }),
             is_assignable_fn,
